@@ -3,6 +3,8 @@ package main
 import (
 	"bytes"
 
+	"google.golang.org/protobuf/proto"
+
 	"context"
 	"crypto/ed25519"
 	"encoding/binary"
@@ -201,6 +203,28 @@ func (st *keState) apply(op []string, o *hx.Out) {
 		case "x-splice":
 			a, b := st.msgs[atoi(op[1])], st.msgs[atoi(op[2])]
 			return st.msgStr(append(append([]byte{}, a[:36]...), b[36:]...))
+		case "x-lie": // the InitHello claims another key: same time-stamp, same signature, key k
+			m := st.msgs[atoi(op[1])]
+			body := m[36:]
+			if len(body) < 2 {
+				return "bad-op"
+			}
+			l := int(binary.BigEndian.Uint16(body[len(body)-2:]))
+			if l > len(body)-2 {
+				return "bad-op"
+			}
+			var ih p2pke.InitHello
+			if err := proto.Unmarshal(body[len(body)-2-l:len(body)-2], &ih); err != nil {
+				return "bad-op"
+			}
+			ih.KeyX509 = kePubs[atoi(op[2])]
+			data, err := proto.Marshal(&ih)
+			if err != nil {
+				return "bad-op"
+			}
+			out := append(append([]byte{}, m[:36]...), data...)
+			out = binary.BigEndian.AppendUint16(out, uint16(len(data)))
+			return st.msgStr(out)
 		case "c-new":
 			kc := &keChan{}
 			acc := op[3]
@@ -371,10 +395,13 @@ func keScenario(r *rand.Rand, kind string, exec func(op string) string, st *keSt
 				return
 			}
 			a := hellos[r.Intn(len(hellos))]
-			if r.Intn(2) == 0 {
+			switch r.Intn(3) {
+			case 0:
 				exec(fmt.Sprintf("x-eph %d %d", a, 1_000_000+msgCount()))
-			} else {
+			case 1:
 				exec(fmt.Sprintf("x-splice %d %d", a, hellos[r.Intn(len(hellos))]))
+			default:
+				exec(fmt.Sprintf("x-lie %d %d", a, r.Intn(nKeKeys)))
 			}
 		}
 	}
